@@ -8,7 +8,7 @@ export CARGO_NET_OFFLINE=true
 mkdir -p "$dst"
 cd "$wt" || exit 2
 cp OUT/patch.diff "$dst/patch.diff"; cp OUT/demo.diff "$dst/demo.diff"; cp OUT/meta.json "$dst/agent_meta.json" 2>/dev/null
-git checkout -q -- . ; git apply OUT/patch.diff OUT/demo.diff || { echo "diffs do not apply on a clean worktree"; exit 2; }
+git reset -q --hard; git clean -fdq -- src; git apply OUT/patch.diff OUT/demo.diff || { echo "diffs do not apply on a clean worktree"; exit 2; }
 echo "== unit tests WITH the change (demo skipped)"
 cargo test --offline --lib -- --skip "$demo" 2>&1 | grep -E "^test result|FAILED|failed" | head -5 | tee "$dst/unit_with.txt"
 echo "== demo WITH the change"
